@@ -20,7 +20,23 @@ ASSUMPTIONS = [
 
 def obligations(tier):
     shards = [dict(ALL_GOOD[k], name=k, wellformed=1) for k in ALL_GOOD] + [dict(DESCRIPTORS[k], name=k, wellformed=1) for k in KNOWN_BAD]
-    return [Obligation("outputs_define_before_use_and_no_internal_error", "harness.compilers", "c15", shards, cond_timeout=400, path_timeout=120,
+    # the import layer of "compiles without an internal error": the real parse()/parse_file() over files spread over
+    # directories of different depth, both import-list orders (shared with C12's closure harness; here the point is that
+    # nothing but a ParserError ever escapes and the working directory is restored)
+    imp = []
+    for e in ([1, 1, 1, 1, 1, 0], [1, 1, 1, 1, 1, 1], [1, 1, 0, 1, 1, 0], [1, 1, 1, 0, 1, 1]):
+        for rev in (0, 1):
+            imp.append({"edges": e, "place": [1, 3], "kinds": ["struct", "msg"], "layout": "tree", "rev": rev, "twice": rev})
+    if tier != "quick":
+        import itertools
+        imp = [{"edges": list(e), "place": pl, "kinds": ["struct", "msg"], "layout": "tree", "rev": rev, "twice": tw}
+               for e in itertools.product((0, 1), repeat=6) if sum(e) >= 3 for pl in ([1, 3], [0, 2]) for rev in (0, 1) for tw in (0, 1)]
+    return [Obligation("imports_resolve_from_every_directory_and_order", "harness.c12_closure", "clo", imp, cond_timeout=400, path_timeout=60,
+                       reach="clo_reach", reach_shards=[imp[0]],
+                       encoded=["pyrtma.parser:Parser.parse", "pyrtma.parser:Parser.parse_file", "pyrtma.parser:Parser.parse_text", "pyrtma.parser:Parser.handle_import"],
+                       bounds="import graphs over a root and 3 files in directories of different depth, imports spelled with .., both orders of every import list, a repeated import",
+                       symbolic="ids and name indices of a struct and a message placed in two of the files"),
+            Obligation("outputs_define_before_use_and_no_internal_error", "harness.compilers", "c15", shards, cond_timeout=400, path_timeout=120,
                        reach="c15_reach", reach_shards=[dict(DESCRIPTORS["struct_array_msg"], wellformed=1)], encoded=ENC,
                        bounds="%d definition descriptors (13 hand-written + a generated family: every kind of field type x scalar/array x struct/message container x type defined locally / in an imported file): natives (all 27 names), aliases of natives / aliases / structs, nested structs, struct arrays, message in message, signals, automatic padding, each also with the referenced type coming from an imported file" % len(shards),
                        symbolic="the base message id (ids are base, base+1, ...; 0..9998), module id, host id, a constant")]
